@@ -204,7 +204,7 @@ class _NoLog(list):
         pass
 
 
-OPS = ('r', 'wx', 'wy', 'rw', 'rx', 'co', 'u1', 'u2', 'cx', 'csx')
+OPS = ('r', 'wx', 'wy', 'rw', 'rx', 'co', 'u1', 'u2', 'cx', 'csx', 'wa', 'mr', 'sy')
 
 
 def gen_programs(rng, nthreads=2, length=4):
@@ -324,6 +324,25 @@ def scenario(job):
                         tm.commit()
                     elif op == 'rx':
                         _ = r['x'].value
+                        tm.abort()
+                    elif op == 'wa':
+                        # modify and abort: the modified copy is dropped, the next read loads at the snapshot again
+                        r['x'].value += 1
+                        tm.abort()
+                    elif op == 'mr':
+                        # read, empty the cache in mid-transaction, read again: the same snapshot serves both
+                        a1 = r['x'].value, r['y'].value
+                        c.cacheMinimize()
+                        a2 = c.root()['x'].value, c.root()['y'].value
+                        if a1 != a2:
+                            raise AssertionError('values changed within one transaction: %r then %r' % (a1, a2))
+                        tm.abort()
+                    elif op == 'sy':
+                        # sync(): a new snapshot without closing (begins a transaction: called outside of one)
+                        _ = r['x'].value
+                        tm.abort()
+                        c.sync()
+                        _ = c.root()['x'].value, c.root()['y'].value
                         tm.abort()
                     else:
                         _ = r['x'].value, r['y'].value
